@@ -853,6 +853,32 @@ func whitespaceOnlyDifference(a, b reflect.Value) bool {
 			if x.Len() != y.Len() {
 				return false
 			}
+			if x.Type().Elem().Kind() == reflect.String {
+				// a list of strings in ONE header value ("a, b,c"): net/http trims the value as a whole, so
+				// only the leading blanks of the first item and the trailing blanks of the last one are
+				// explained by it; blanks at inner item edges must arrive (control characters become blanks)
+				ctl := func(s string) string {
+					return strings.Map(func(c rune) rune {
+						if c < 0x20 || c == 0x7f {
+							return ' '
+						}
+						return c
+					}, s)
+				}
+				for i := 0; i < x.Len(); i++ {
+					xs, ys := ctl(x.Index(i).String()), ctl(y.Index(i).String())
+					if i == 0 {
+						xs, ys = strings.TrimLeft(xs, " "), strings.TrimLeft(ys, " ")
+					}
+					if i == x.Len()-1 {
+						xs, ys = strings.TrimRight(xs, " "), strings.TrimRight(ys, " ")
+					}
+					if xs != ys {
+						return false
+					}
+				}
+				return true
+			}
 			for i := 0; i < x.Len(); i++ {
 				if !eq(x.Index(i), y.Index(i), depth+1) {
 					return false
